@@ -101,12 +101,25 @@ def repo_full_strings():
                 continue
             for m in re.finditer(r"\{\[#[^{}\n]*\}(?:\s*\.\s*\{#[^{}]*\})+", txt):
                 out.append(re.sub(r"\s+", "", m.group(0)).replace("\\\\", "\\"))
+    out += BIG_STRINGS
     seen, uniq = set(), []
     for s in out:
         if s not in seen:
             seen.add(s)
             uniq.append(s)
     return uniq
+
+
+# molecules well beyond the bounded universes: 45-90 atoms, residues whose atom keys cross 32 and 64, ten and more
+# residues, two-digit multipliers (size-dependent defects: hash-ordered sets of keys, two-digit numbers, the tenth of something)
+BIG_STRINGS = [
+    "{[#PEO]|8}.{#PEO=[$]COC[$]}",
+    "{[#OH][#PEO]|12[#OH]}.{#PEO=[$]COC[$],#OH=[$]O}",
+    "{[#PS]|5}.{#PS=[$]CC(c1ccccc1)[$]}",
+    "{[#A]|20}.{#A=[$]CC[$]}",
+    "{[#A][#B]|11[#A]}.{#A=[$]C(C)C,#B=[>]CC(=O)N[<][$]}",
+    "{[#X]([#Y]|3)|4}.{#X=[$]C[$]C[$],#Y=[$]OC[$]}",
+]
 
 
 def validate(check, records):
@@ -279,6 +292,11 @@ def cut_corpus(rng, n_random, tier, share=0.0, kinds=("$", "<>")):
             cfg = molgen.make_cut_config(g, dict(enumerate(blocks)), rng, kinds=kinds, share=0.0)
             if cfg is not None:
                 out.append((g, cfg, smi))
+    g = molgen.read_reference(molgen.HUB[0])
+    for _ in range(per * 3):
+        cfg = molgen.make_cut_config(g, molgen.hub_blocks(), rng, kinds=kinds, share=0.0, numeric=True)
+        if cfg is not None:
+            out.append((g, cfg, molgen.HUB[0]))
     for i in range(n_random):
         g = molgen.random_molecule(rng, rng.randint(2, 12))
         if not perceived_ok(g):
@@ -579,20 +597,13 @@ def run_c01(tier):
     return check.finish()
 
 
-def run_c10(tier):
-    check = Check("C10", tier=tier)
-    check.rule = ("the C01 corpus with a random subset of the cut bonds replaced by sharing one end atom ('!x' pairs, incl. "
-                  "several per fragment, atoms shared by three fragments, chains, aromatic atoms, atoms that also carry "
-                  "ordinary descriptors); non-trivial = at least one shared atom")
-    recs = _cut_records(check, tier, 0.6, "c10")
-    recs += tlc_molecules(check, tier, 0.7, "c10mc")
-    recs += _forced_sharing(check, tier)
-    # shared atoms / shared beads at SEVERAL levels of one string (three and more resolutions, squash at each of them)
+def layered_sharing_records(tier, tag, want):
+    """shared atoms / shared beads at SEVERAL levels of one string (three and more resolutions, squash at each of them)"""
     from .. import molgen
-    rng = common.rng("c10lay")
+    rng = common.rng(tag)
     mols = [(smi, molgen.read_reference(smi)) for smi in molgen.CATALOGUE]
     mols = [(smi, g) for smi, g in mols if g.number_of_nodes() >= 4]
-    want, tries, nlay = (60 if tier == "quick" else 1200), 0, 0
+    tries, nlay, recs = 0, 0, []
     while nlay < want and tries < 20 * want:
         tries += 1
         smi, g = rng.choice(mols)
@@ -604,6 +615,19 @@ def run_c10(tier):
             r.setdefault("nshared", lay["atomistic"].get("nshared", 0))
         recs += rr
         nlay += 1
+    return recs, nlay
+
+
+def run_c10(tier):
+    check = Check("C10", tier=tier)
+    check.rule = ("the C01 corpus with a random subset of the cut bonds replaced by sharing one end atom ('!x' pairs, incl. "
+                  "several per fragment, atoms shared by three fragments, chains, aromatic atoms, atoms that also carry "
+                  "ordinary descriptors); non-trivial = at least one shared atom")
+    recs = _cut_records(check, tier, 0.6, "c10")
+    recs += tlc_molecules(check, tier, 0.7, "c10mc")
+    recs += _forced_sharing(check, tier)
+    lrecs, nlay = layered_sharing_records(tier, "c10lay", 60 if tier == "quick" else 1200)
+    recs += lrecs
     check.extra["layered_strings_with_sharing"] = nlay
     verdicts = validate_with(check, recs, extra=("noblocks", "otherfrags"))
     judge(check, "C10", recs, verdicts, nontrivial=lambda r, v: r.get("nshared", 0) > 0)
@@ -633,9 +657,15 @@ CFG_RULE = ("every base graph of the bounded grammar (<= {n} nodes over A, B and
 
 def run_c02(tier):
     check, recs, verdicts = _config_check("C02", tier, CFG_RULE.format(n=3 if tier == "quick" else 4) +
-                                          "; non-trivial = more than one coarse node",
+                                          "; plus layered strings with shared beads/atoms at several levels (the records of "
+                                          "every step); non-trivial = more than one coarse node",
                                           only=lambda r, v: v.get("checked"),
                                           nontrivial=lambda r, v: len(r["obs"]["coarse"]["nodes"]) > 1)
+    lrecs, nlay = layered_sharing_records(tier, "c02lay", 40 if tier == "quick" else 600)
+    lverd = validate_with(check, lrecs, extra=("noblocks", "otherfrags"))
+    judge(check, "C02", lrecs, lverd, only=lambda r, v: v.get("checked"),
+          nontrivial=lambda r, v: len(r["obs"]["coarse"]["nodes"]) > 1)
+    check.extra["layered_strings_with_sharing"] = nlay
     return check.finish()
 
 
